@@ -62,6 +62,9 @@ def materialise(spec):
          'death_cause': 'self'}
     if h['death'] == 9:
         h['death_cause'] = 'ext'
+    if rnd.random() < .15:
+        # the wall clock is stepped at a kernel-call boundary of the stop sequence
+        h['clock'] = [rnd.choice([1, 2, 3, 4, 6, 9, 14, 20]), rnd.choice([-3600.0, 3600.0, -5.0, 86400.0])]
     f = rnd.random()
     if f < .2:
         # the watcher has a past: earlier stop / start / restart cycles before the operation that is judged
@@ -177,6 +180,14 @@ def _history(w, h, res, inject_at, out):
                 kern.schedule_death(kern.procs[live[inject_at % len(live)]], 0.0, st, cause)
                 res.obs['deaths_landed'] += 1
         k.inject[mark + inject_at] = inj
+    if h.get('clock'):
+        coff, delta = h['clock']
+
+        def cstep(kern, delta=delta):
+            w.clock.wall_offset += delta
+            res.obs['wall_clock_steps_during_the_stop'] += 1
+        prev = k.inject.get(mark + coff)
+        k.inject[mark + coff] = cstep if prev is None else (lambda kern, a=prev, b=cstep: (a(kern), b(kern)))
     done = {}
 
     def evaluate(why):
